@@ -54,6 +54,17 @@ class TlcResult:
         """Lines produced by PrintT/Print that look like JSON objects or TLA tuples."""
         return [l for l in self.out.splitlines() if l.startswith("{") or l.startswith("<<")]
 
+    def printed_json(self):
+        """objects printed with PrintT(ToJson(x)): TLC prints them as JSON-encoded strings"""
+        out = []
+        for l in self.out.splitlines():
+            if l.startswith('"{') or l.startswith('"['):
+                try:
+                    out.append(json.loads(json.loads(l)))
+                except Exception:
+                    pass
+        return out
+
     def coverage_zero(self):
         """Actions reported with 0 distinct states by -coverage (vacuity)."""
         z = []
